@@ -34,6 +34,42 @@ def _slice(text):
     return text, None, None
 
 
+def _i_nonzero(pyguards):
+    """True: the Python conditions say the word index i is not 0 (`if i:`, `i != 0`, `not i == 0`, `0 < i`); False: they say i == 0"""
+    for c, p in pyguards:
+        t = c.replace(" ", "")
+        if t == "i":
+            return p
+        if t in ("i==0", "0==i"):
+            return not p
+        if t in ("i!=0", "0!=i", "0<i", "i>0", "1<=i", "i>=1"):
+            return p
+    return None
+
+
+def _word_order(ctx, cm_, cls, ordering, nwords=3, busword=8):
+    """do_finalize interpreted (lxs/pyconst.py, objects as opaque tokens) for a register of `nwords` bus words: the word indices in
+    the order their simple CSRs are created, and whether self.simple_csrs holds them in that order.  The CSR names carry the index."""
+    from .. import pyconst
+    fn = cm_.method(cls, "do_finalize")
+    me = pyconst.NS(size=nwords * busword, atomic_write=True, name="r", simple_csrs=[], read_only=False, write_from_dev=False)
+    it = pyconst.Interp({"self": me, "busword": busword, "ordering": ordering}, objects=True,
+                        funcs={n.name: n for n in cm_.tree.body if isinstance(n, ast.FunctionDef)})
+    try:
+        it.run(fn.body)
+    except Exception as ex:
+        ctx.need(False, f"{cls}.do_finalize cannot be interpreted: {ex}")
+    csrs = [o for o in it.created if o.cls == "CSR"]
+    order = []
+    for o in csrs:
+        nm = o.args[1] if len(o.args) > 1 else o.kwargs.get("name")
+        if not (isinstance(nm, str) and nm.startswith("r") and nm[1:].isdigit()):
+            return None, False
+        order.append(int(nm[1:]))
+    reg = me.get("simple_csrs")
+    return order, isinstance(reg, list) and len(reg) == len(csrs) and all(a is b for a, b in zip(reg, csrs))
+
+
 def status_write_latch(ctx, rid, fxt=None):
     """Writable CSRStatus (shared with C15: EventManager.pending): `r` takes the bus data only in the cycle of the write strobe and
     `re` is that strobe one cycle later -- `re & r[i]` then means "a one was written to bit i".  Without the strobe on the latch `r`
@@ -147,12 +183,12 @@ def run(ctx):
            "" if ok else f"{[(a.t, a.v, a.gtext()) for a in fxs.find(domain='sync')]}", plain[0].line if plain else 0)
     bs = [a for a in fxs.find(domain="sync") if a.t.startswith("backstore[")]
     ok = len(bs) == 1 and bs[0].t == "backstore[i * busword - busword:i * busword + nbits - busword]" and bs[0].v == "sc.r" and \
-        q.EQ(bs[0], B.A("sc.re")) and ("i", True) in bs[0].pyguards
+        q.EQ(bs[0], B.A("sc.re")) and _i_nonzero(bs[0].pyguards) is True
     ctx.ob("R2", CSR, "CSRStorage.do_finalize", "atomic: words != 0 go to backstore[lo-busword : hi-busword] under their strobe", ok,
            "" if ok else f"{[(a.t, a.v, a.gtext(), a.pyguards) for a in bs]}", bs[0].line if bs else 0)
     cm = [a for a in fxs.find(domain="sync", target="self.storage") if "backstore" in a.v]
     ok = len(cm) == 1 and cm[0].v == "Cat(sc.r, backstore)" and q.EQ(cm[0], B.A("sc.re")) and \
-        ("i", False) in cm[0].pyguards
+        _i_nonzero(cm[0].pyguards) is False
     ctx.ob("R2", CSR, "CSRStorage.do_finalize", "atomic: word 0 commits Cat(sc.r, backstore) under its strobe", ok,
            "" if ok else f"{[(a.v, a.gtext(), a.pyguards) for a in cm]}", cm[0].line if cm else 0)
     re_ = fxs.find(domain="sync", target="self.re")
@@ -187,36 +223,23 @@ def run(ctx):
     cm_ = ctx.mod(CSR)
     for cls in ("CSRStorage", "CSRStatus"):
         fn = cm_.method(cls, "do_finalize")
-        fors = [n for n in ast.walk(fn) if isinstance(n, ast.For)]
-        ok = len(fors) == 1 and norm(fors[0].iter) == "reversed(range(nwords)) if ordering == 'big' else range(nwords)" and \
-            any("self.simple_csrs.append(sc)" in norm(s) for s in fors[0].body)
+        wo = {o: _word_order(ctx, cm_, cls, o) for o in ("big", "little")}
+        ok = wo["big"] == ([2, 1, 0], True) and wo["little"] == ([0, 1, 2], True)
         ctx.ob("R2", CSR, f"{cls}.do_finalize", "word loop: MSW first for big, LSW first for little; every word registered", ok,
-               "" if ok else f"loop {norm(fors[0].iter) if fors else '?'}", fn)
+               "" if ok else f"for a 3-word register the simple CSRs are created (= mapped to ascending addresses) in word order {wo['big'][0]} for "
+                             f"ordering='big' and {wo['little'][0]} for 'little' (registered in that order: {wo['big'][1]}, {wo['little'][1]})", fn)
 
     # ================================================================ R5
     fn = cm_.method("CSRStorage", "do_finalize")
-    fors = [n for n in ast.walk(fn) if isinstance(n, ast.For)]
-    if fors and isinstance(fors[0].iter, ast.IfExp):
-        it = fors[0].iter
-
-        def last_index(e):
-            t = norm(e)
-            if t == "reversed(range(nwords))":
-                return "0"
-            if t == "range(nwords)":
-                return "nwords - 1"
-            return None
-        orders = {}
-        test = norm(it.test)
-        if test == "ordering == 'big'":
-            orders = {"big": last_index(it.body), "little": last_index(it.orelse)}
-        elif test == "ordering == 'little'":
-            orders = {"little": last_index(it.body), "big": last_index(it.orelse)}
+    wo = {o: _word_order(ctx, cm_, "CSRStorage", o)[0] for o in ("big", "little")}
+    if all(isinstance(v, list) and len(v) == 3 for v in wo.values()):
+        # the word index that sits at the last bus address, as text in terms of nwords
+        orders = {o: {0: "0", 2: "nwords - 1"}.get(v[-1]) for o, v in wo.items()}
         # commit index: the pyguard on the loop variable of the commit assignment
         commit_idx = None
         if cm:
             pg = dict(cm[0].pyguards)
-            if pg.get("i") is False:
+            if _i_nonzero(cm[0].pyguards) is False:
                 commit_idx = "0"
             elif pg.get("i == nwords - 1") is True:
                 commit_idx = "nwords - 1"
